@@ -1162,3 +1162,65 @@ Proof.
   rewrite (Proofs.Tree.spt_decide_profile_perm alts p p' Hp).
   apply Proofs.Tree.spt_decide_alts_perm; [apply Hpo|exact Ha].
 Qed.
+
+(* ============================================================================================================ *)
+(* Part 5 — consecutive ones: the columns of the matrix in another order                                        *)
+Section C1PColumns.
+Import PrefVerif.Model.C1P.
+
+Lemma pick_permute_row q row j : j < length q -> pick (permute_row q row) j = pick row (nth j q 0).
+Proof.
+  intros Hj. unfold pick at 1, permute_row.
+  rewrite (nth_indep _ false (pick row 0)) by (now rewrite map_length). apply (map_nth (pick row)).
+Qed.
+
+Lemma permute_row_compose q perm row : Forall (fun j => j < length q) perm ->
+  permute_row perm (permute_row q row) = permute_row (map (fun j => nth j q 0) perm) row.
+Proof.
+  intros H. unfold permute_row at 1 3. rewrite map_map. apply map_ext_in. intros j Hj.
+  apply pick_permute_row. rewrite Forall_forall in H. now apply H.
+Qed.
+
+Lemma C1P_cols_forward rows nc q : Permutation (seq 0 nc) q ->
+  Proofs.C1P.C1P (map (permute_row q) rows) nc -> Proofs.C1P.C1P rows nc.
+Proof.
+  intros Hq (perm & Hperm & Hrows).
+  assert (Hlen : length q = nc) by (rewrite <- (Permutation_length Hq); apply seq_length).
+  assert (Hrange : Forall (fun j => j < length q) perm).
+  { rewrite Hlen. now apply Proofs.C1P.perm_of_seq_range. }
+  exists (map (fun j => nth j q 0) perm). split.
+  - transitivity q; [exact Hq|]. rewrite <- (Proofs.C1P.map_nth_seq q 0) at 1. rewrite Hlen. now apply Permutation_map.
+  - rewrite Forall_forall in Hrows. apply Forall_forall. intros row Hrow. unfold row_contig.
+    rewrite <- (permute_row_compose q perm row Hrange). apply (Hrows (permute_row q row)). now apply in_map.
+Qed.
+
+Lemma permute_row_seq row : permute_row (seq 0 (length row)) row = row.
+Proof. unfold permute_row, pick. apply Proofs.C1P.map_nth_seq. Qed.
+
+Lemma cols_perm_inverse nc q : Permutation (seq 0 nc) q ->
+  exists p, Permutation (seq 0 nc) p /\ forall row, length row = nc -> permute_row p (permute_row q row) = row.
+Proof.
+  intros Hq.
+  assert (Hlen : length q = nc) by (rewrite <- (Permutation_length Hq); apply seq_length).
+  destruct (Proofs.C1P.Permutation_index 0 q (seq 0 nc) (Permutation_sym Hq)) as (p & Hp & E).
+  rewrite Hlen in Hp. exists p. split; [exact Hp|]. intros row Hrow.
+  rewrite permute_row_compose by (rewrite Hlen; now apply Proofs.C1P.perm_of_seq_range).
+  rewrite <- E, <- Hrow. apply permute_row_seq.
+Qed.
+
+Theorem C1P_cols_perm rows nc q : Permutation (seq 0 nc) q -> Forall (fun r => length r = nc) rows ->
+  (Proofs.C1P.C1P (map (permute_row q) rows) nc <-> Proofs.C1P.C1P rows nc).
+Proof.
+  intros Hq Hlen. split; [now apply C1P_cols_forward|].
+  destruct (cols_perm_inverse nc q Hq) as (p & Hp & Hinv). intros H.
+  apply (C1P_cols_forward (map (permute_row q) rows) nc p Hp).
+  rewrite map_map. rewrite (map_ext_in _ (fun r => r)); [now rewrite map_id|].
+  intros row Hrow. apply Hinv. rewrite Forall_forall in Hlen. now apply Hlen.
+Qed.
+
+Theorem c1p_decide_cols_perm rows nc q : Permutation (seq 0 nc) q -> Forall (fun r => length r = nc) rows ->
+  c1p_decide (map (permute_row q) rows) nc = c1p_decide rows nc.
+Proof.
+  intros Hq Hlen. apply bool_eq_iff'. rewrite !Proofs.C1P.c1p_decide_correct. now apply C1P_cols_perm.
+Qed.
+End C1PColumns.
